@@ -47,7 +47,7 @@ type C14Case struct {
 	Alts   [][]*m.Journal `json:"alts"` // per file: alternative buffer contents
 	Root   bool           `json:"root"`
 	Ops    []C14Op        `json:"ops"`
-	Delays []int          `json:"delays"` // microseconds to hold background goroutines at successive hook points
+	Delays []int          `json:"delays"`         // microseconds to hold background goroutines at successive hook points
 	Pats   []string       `json:"pats,omitempty"` // directed patterns appended to the random history (labels only)
 }
 
